@@ -12,6 +12,10 @@ their text delimiter, and free comment text.
 
     interp toks = run init ((splitStmts (stripPunct toks)).map parseStmt)
 
+`lex : String → List Tok` (end of the file) is an executable character-level lexer for the same
+subset; the driver uses it to confirm, file by file, that the token stream it is given is the
+lexing of the text the real parser reads.  The theorems (Props/C10.lean) are at token level.
+
 Output: `List Region`, exact.  Pixel quantities are rationals (`Val.pix`), angular quantities
 are DEGREES as exact rationals (`Val.deg`); a value written in radians is kept SYMBOLICALLY
 (`Val.rad q` = `q` radians) because `q·180/π` is irrational — the harness compares those by
